@@ -180,7 +180,7 @@ def _grid_sample(x, nm, rng, opset):
 @unit("plain-unary", 11, 17, "plain")
 def _plain_unary(x, nm, rng, opset):
     y = nm()
-    return [H.make_node(rng.choice(["Abs", "Neg", "Relu", "Floor", "Identity"]), [x], [y])], y
+    return [H.make_node(rng.choice(["Abs", "Neg", "Relu", "Tanh", "Identity"]), [x], [y])], y  # continuous only
 
 
 def units_for(opset: int, kinds=("sig", "meaning", "compat", "plain")) -> list[str]:
@@ -206,7 +206,10 @@ def ml_unit(x, nm, rng):
     if k == 0:
         mid = H.make_node("Scaler", [x2], [s], domain="ai.onnx.ml", offset=[0.5], scale=[2.0])
     elif k == 1:
-        mid = H.make_node("Binarizer", [x2], [s], domain="ai.onnx.ml", threshold=0.25)
+        # the threshold is no value the units produce exactly (uniform Softmax rows are 1/2 .. 1/24): the built model
+            # and m differ in the last bit (other kernels after conversion, other fusions inside bodies) and a
+            # discontinuity would turn that into 0 / 1
+            mid = H.make_node("Binarizer", [x2], [s], domain="ai.onnx.ml", threshold=0.3183099)
     else:
         mid = H.make_node("Normalizer", [x2], [s], domain="ai.onnx.ml", norm="L1")
     nodes += [H.make_node("Reshape", [x, sh2], [x2]), mid, H.make_node("Reshape", [s, sh3], [y])]
